@@ -435,6 +435,9 @@ func cmdCheck(args []string) int {
 			// sample of completed paths for translator validation (always incl. one per reach label)
 			var cands []*sym.PathResult
 			for _, p := range hr.Paths {
+				if p.Outcome == "ok" && p.Model == nil && p.PCSize == 0 {
+					p.Model = sym.Model{} // a path without any constraint: every input is a witness
+				}
 				if (p.Outcome == "ok") && p.Model != nil {
 					cands = append(cands, p)
 				}
@@ -634,18 +637,31 @@ func cmdCheck(args []string) int {
 
 	// ---- vacuity
 	var vacuous []string
+	reachNotReplayed := []string{}
 	for _, r := range runs {
 		symReached := map[string]bool{}
+		cleanReached := map[string]bool{} // reached by a completed path whose model is replayable
 		for _, hr := range r.rs {
 			for _, p := range hr.Paths {
+				if p.Outcome != "ok" {
+					continue
+				}
 				for _, l := range p.Reached {
 					symReached[l] = true
+					if len(p.UFUsed) == 0 && len(p.Inexact) == 0 {
+						cleanReached[l] = true
+					}
 				}
 			}
 		}
 		for _, l := range r.h.Reach {
-			if !symReached[l] || !nativeReached[r.h.Name][l] {
+			switch {
+			case !symReached[l]:
 				vacuous = append(vacuous, r.h.Name+":"+l)
+			case cleanReached[l] && !nativeReached[r.h.Name][l]:
+				vacuous = append(vacuous, r.h.Name+":"+l+" (not reached natively)")
+			case !cleanReached[l] && !nativeReached[r.h.Name][l]:
+				reachNotReplayed = append(reachNotReplayed, r.h.Name+":"+l)
 			}
 		}
 	}
